@@ -11,6 +11,7 @@ func main() {
 		c19.RunPoolIds(o)   // (a) pool ids = chain id + kind addend
 		c19.RunSignBytes(o) // (b) sign bytes of certificates / consensus messages
 		c19.RunDecoders(o)  // (c) decoders of untrusted bytes and the handlers behind them
+		c19.RunCritical(o)  // (c) unknown fields / oversize lists at every nesting position of the critical messages
 		c19.RunHandlers(o)  // (c) signed-but-malformed consensus messages through the real bft.HandleMessage
 	})
 }
